@@ -1,7 +1,8 @@
 """C17 — bounded stand-in over program texts (see runtime/h_pipeline.py); contracts on the pipeline functions are added below as they are discharged."""
 ID = "C17"
 LEVEL = "exploration"
-FUNCTIONS = []
+FUNCTIONS = ['codelimit.common.source_utils:filter_nocl_comment_tokens', 'codelimit.common.scope.scope_utils:_filter_nocl_scopes']
+BOUNDED_BUDGET = 400
 TRUSTED = ["Pygments lexers (exercised, not verified)", "the canonical-program generator's expected values (computed from the derivation)"]
 ASSUMPTIONS = []
 BOUND = '3 functions x marker spellings (5 brace-style / 3 hash-style) x 7 languages + non-marker comments + marker on another line'
